@@ -150,7 +150,7 @@ Record cfg := mkcfg {
 Record code := mkcode {
   fx_zip : bool;        (* zip_directory writes <zip>.tmp then os.replace *)
   fx_resume : bool;     (* BFGS resume reads .x/.nit and starts afresh on an unreadable state *)
-  fx_timer : bool;      (* Timer.start rewrites an unreadable .start_time *)
+  fx_timer : bool;      (* Timer.start rewrites an unreadable .start_time; Timer.time ignores an unreadable .time *)
   fx_dill : bool        (* save_search_internal writes search_internal.dill.tmp then os.replace *)
 }.
 Definition current : code := mkcode false false false false.
@@ -185,6 +185,12 @@ Definition update_ops (c : cfg) (g : nat) : list op :=
   [OW Time (Full Plain); OW Summary (Full (Gen g))]
   ++ (if c_csv c then [OW SamplesInfo (Full Plain); OW SamplesCsv (Full (Gen g))] else [])
   ++ [OW Results (Full Plain); OW SearchSummary (Full Plain)].
+
+(* the same, when writing search.summary fails (float("") on the run time) *)
+Definition update_ops_failing (c : cfg) (g : nat) : list op :=
+  [OW Time (Full Plain); OW Summary (Full (Gen g))]
+  ++ (if c_csv c then [OW SamplesInfo (Full Plain); OW SamplesCsv (Full (Gen g))] else [])
+  ++ [OW Results (Full Plain)].
 
 Fixpoint repeat_ops (n : nat) (l : list op) : list op :=
   match n with O => [] | S n' => l ++ repeat_ops n' l end.
@@ -225,6 +231,14 @@ Definition fit_ops (cd : code) (c : cfg) (tag : nat) (s : fs)
       end
   end.
 
+(* Drawer._fit stores Timer.time (the content of .time as left by earlier runs) in its samples info;
+   search_summary_to_file converts it with float() *)
+Definition drawer_time_bad (cd : code) (c : cfg) (s : fs) : bool :=
+  match c_search c, fd s Time with
+  | Drawer, Part PEmpty => negb (fx_timer cd)
+  | _, _ => false
+  end.
+
 (* start_resume_fit *)
 Definition fresh_ops (cd : code) (c : cfg) (tag : nat) (s : fs)
   : list op * (exc + result) * bool :=
@@ -236,8 +250,10 @@ Definition fresh_ops (cd : code) (c : cfg) (tag : nat) (s : fs)
       match fo with
       | inl e => (OA Log :: t ++ f, inl e, sampled)
       | inr g =>
-          (OA Log :: t ++ f ++ update_ops c g ++ [OW Marker (Full Plain)],
-           inr (mkres g (Some g) internal), sampled)
+          if drawer_time_bad cd c s
+          then (OA Log :: t ++ f ++ update_ops_failing c g, inl ValueErr, sampled)
+          else (OA Log :: t ++ f ++ update_ops c g ++ [OW Marker (Full Plain)],
+                inr (mkres g (Some g) internal), sampled)
       end
   end.
 
